@@ -254,6 +254,12 @@ impl<'a> Gen<'a> {
     }
 
     fn perform(&mut self, a: Act) {
+        // a short pause between two actions: time that passes between calls must show in the
+        // recorded times (a span closed at the wrong call is then off by more than the slack)
+        let t0 = std::time::Instant::now();
+        while t0.elapsed() < std::time::Duration::from_micros(25) {
+            std::hint::spin_loop();
+        }
         let tb = self.now();
         match a {
             Act::Install(c) => {
@@ -851,6 +857,54 @@ impl<'a> Gen<'a> {
         }
     }
 
+    /// `collect` profile: a scripted opening in which a local collector is collected while a
+    /// local span opened under it is still open -- with a finished sibling recorded before or
+    /// after it -- and the set is then pushed / converted; the history continues at random
+    fn prelude_collect_open(&mut self) {
+        let c = match self.prof.force_cancelable { Some(b) => b, None => self.rng.chance(1, 2) };
+        self.perform(Act::Install(c));
+        self.perform(Act::Spawn(0, 1, 0));
+        let mut plain = |g: &mut Self| loop {
+            let h = g.fresh();
+            if eop_route(h).is_none() {
+                return h;
+            }
+        };
+        let root = plain(self);
+        let name = self.next_sym + 1;
+        self.do_call(0, vec![s("root"), s(root), s(name), format!("{:x}", 0x1000 + self.next_trace as u128 + 1), s(7), s(1)]);
+        let lc = plain(self);
+        self.do_call(0, vec![s("lcstart"), s(lc)]);
+        let (a, b) = (plain(self), plain(self));
+        let (na, nb) = (self.next_sym + 1, self.next_sym + 2);
+        if self.rng.chance(1, 2) {
+            // a stays open, its child b is finished last
+            self.do_call(0, vec![s("lenter"), s(a), s(na)]);
+            self.do_call(0, vec![s("lenter"), s(b), s(nb)]);
+            self.do_call(0, vec![s("lexit"), s(b)]);
+        } else {
+            // b is finished first, then a is opened and stays open
+            self.do_call(0, vec![s("lenter"), s(b), s(nb)]);
+            self.do_call(0, vec![s("lexit"), s(b)]);
+            self.do_call(0, vec![s("lenter"), s(a), s(na)]);
+        }
+        if self.dead {
+            return;
+        }
+        // some time passes before the set is collected
+        for _ in 0..self.rng.below(3) {
+            self.do_call(0, vec![s("curl")]);
+        }
+        let ls = plain(self);
+        self.do_call(0, vec![s("lccollect"), s(lc), s(ls)]);
+        self.do_call(0, vec![s("lexit"), s(a)]);
+        if self.rng.chance(1, 2) {
+            self.do_call(0, vec![s("pushc"), s(root), s(ls)]);
+        } else {
+            self.do_call(0, vec![s("torec"), s(ls), s("77"), s("5")]);
+        }
+    }
+
     fn wind_down(&mut self) {
         // finish the cycle in flight, if any
         if self.coll != CollSt::Idle {
@@ -1017,6 +1071,9 @@ pub fn generate(seed: u64, first: usize, n: usize, prof_name: &str, out: &mut dy
             zero_prefix_used: false,
             zero_trace_used: false,
         };
+        if prof.name == "collect" && g.rng.chance(1, 3) {
+            g.prelude_collect_open();
+        }
         while g.nactions < len && !g.dead {
             g.step();
         }
